@@ -54,7 +54,16 @@ def drive(tier):
 
     from vlib import seqx
 
-    return seqx.drive(sys.modules[__name__], tier, START, depth_limit=depth_limit(tier), max_states=48 if tier == "quick" else 440)
+    results = seqx.drive(sys.modules[__name__], tier, START, depth_limit=depth_limit(tier), max_states=48 if tier == "quick" else 440)
+    if any("harness_error" in r for r in results):
+        return results
+    # the states of the recorded known findings are examined in every run, whatever the state cap left out
+    from vlib import core
+
+    extra = seqx.known_witness_states(sys.modules[__name__])
+    if extra:
+        results.extend(core.pmap(__name__, [("level", extra)], tier))
+    return results
 
 
 def run_shard(shard, tier):
